@@ -32,7 +32,7 @@ func init() {
 		Technique: "deterministic simulation: seeded recipes (zero-valued, degenerate, overlapping requirements) with randomised retry knobs; refusal decision compared with the exact success probability; scripted adversarial tapes on which every candidate fails or only the last permitted candidate succeeds",
 		Rule:      "case = one Generate / SuccessProbability call with its expected outcome class; distinct by hash of (recipe, knobs, stream kind); non-trivial = the recipe has a requirement, is degenerate (length<=0, empty alphabet, missing list) or the stream is adversarial",
 		Assumptions: []string{"recipes whose failure bound (1-p)^MaxTrials is within a factor 1+-1e-3 of MaxFailRate are don't-care (float32 rounding)", "a recipe in which exclusion empties a required set is don't-care for the refusal decision (the statements leave it open) but must still not panic", "an error after exactly MaxTrials failed candidates on a random stream is legitimate (probability <= MaxFailRate)"},
-		Episodes:    map[string]int{"quick": 1600, "thorough": 50000},
+		Episodes:    map[string]int{"quick": 16000, "thorough": 200000},
 		TwiceEvery:  7,
 		Real:        []string{"CharRecipe.Generate/SuccessProbability/hasAcceptableFailRate", "WLRecipe.Generate", "package knobs MaxTrials/MaxFailRate"},
 		Simulated:   []string{"crypto/rand.Reader (random and adversarial choice tapes)", "alphabet index order (H2)", "retry knobs (randomised per episode, restored afterwards)"},
@@ -175,6 +175,9 @@ func c13Char(c *Ctx, s *C13Spec) {
 	rec := cfg.Recipe()
 	m := modelChar(cfg)
 	desc := fmt.Sprintf("%s MaxTrials=%d MaxFailRate=%g", cfg, s.MaxTrials, s.MaxFailRate)
+	if s.TapeSeed%2 == 0 {
+		warmSiblings(c, s.TapeSeed, cfg)
+	}
 	res := genOp(NewTape(TapeSpec{Mode: "choice", Seed: s.TapeSeed, Default: "random"}), rec)
 	c.Eval(1)
 	c.T(res.brief())
@@ -205,15 +208,7 @@ func c13Char(c *Ctx, s *C13Spec) {
 		if p.Sign() == 0 {
 			expect, why = "error", "no string satisfies the requirements"
 		} else {
-			fail := math.Pow(1-pf, float64(s.MaxTrials))
-			switch {
-			case fail > s.MaxFailRate*(1+1e-3):
-				expect, why = "error", fmt.Sprintf("failure bound (1-%.6g)^%d = %.6g above the limit", pf, s.MaxTrials, fail)
-			case fail < s.MaxFailRate*(1-1e-3):
-				expect, why = "ok", fmt.Sprintf("failure bound %.6g below the limit", fail)
-			default:
-				expect = "dontcare"
-			}
+			expect, why = refusalExpectation(pf, float64(cfg.Length)*math.Log2(float64(len(m.A))), s.MaxTrials, s.MaxFailRate)
 		}
 		if m.Emptied > 0 {
 			expect = "dontcare"
@@ -296,7 +291,13 @@ func c13WL(c *Ctx, s *C13Spec) {
 	var g interface{}
 	desc := "WLRecipe" + cfg.String()
 	expect := "ok"
-	if s.ZeroValue {
+	if s.ZeroValue && s.TapeSeed%2 == 1 {
+		// a recipe over a non-nil but empty word list, constructible through the exported type
+		g = spg.NewWLRecipe(maxInt(cfg.Length, 1), &spg.WordList{})
+		desc = "NewWLRecipe(n, &WordList{}) (empty list value)"
+		expect = "error"
+		c.Probe("wordlist_recipe_with_empty_list_value", 1)
+	} else if s.ZeroValue {
 		g = spg.WLRecipe{}
 		desc = "WLRecipe{} (zero value)"
 		expect = "error"
@@ -436,4 +437,27 @@ func c13Budget(c *Ctx, s *C13Spec) {
 		return
 	}
 	c.Sample(map[string]interface{}{"recipe": desc, "failing_candidate_path": bad, "satisfying_candidate_path": good})
+}
+
+// refusalExpectation decides what the pre-flight check must do for an exact single-attempt
+// success probability p. The library derives p from the difference of two float32
+// entropies of magnitude E, so p is only known to it up to a factor 2^(+-dE) with dE a few
+// float32 ulps of E; a decision that flips inside that band (or within 1e-3 of the limit)
+// is don't-care. Outside the band the decision is determined.
+func refusalExpectation(p, E float64, trials int, limit float64) (string, string) {
+	if E < 1 {
+		E = 1
+	}
+	dE := 4 * E * math.Pow(2, -23)
+	pHi := math.Min(1, p*math.Exp2(dE))
+	pLo := p * math.Exp2(-dE)
+	failLo := math.Pow(1-pHi, float64(trials))
+	failHi := math.Pow(1-pLo, float64(trials))
+	switch {
+	case failLo > limit*(1+1e-3):
+		return "error", fmt.Sprintf("failure bound (1-%.9g)^%d = %.6g above the limit %g", p, trials, math.Pow(1-p, float64(trials)), limit)
+	case failHi < limit*(1-1e-3):
+		return "ok", fmt.Sprintf("failure bound %.6g below the limit %g", math.Pow(1-p, float64(trials)), limit)
+	}
+	return "dontcare", ""
 }
